@@ -47,6 +47,31 @@ def share_rule(model, res):
                 best = s
         return best
 
+    def all_defs(name):
+        """Every value a local of `run` is bound to (plain assignments)."""
+        out = []
+        for s in ast.walk(run.node):
+            if isinstance(s, ast.Assign) and len(s.targets) == 1 and isinstance(s.targets[0], ast.Name) and s.targets[0].id == name:
+                out.append(s.value)
+            elif isinstance(s, ast.AnnAssign) and isinstance(s.target, ast.Name) and s.target.id == name and s.value is not None:
+                out.append(s.value)
+        return out
+
+    def launcher_names(tgt):
+        """The launch function(s) a callable expression denotes: a launcher name, or a local bound only to launcher names."""
+        if isinstance(tgt, ast.Name) and tgt.id in LAUNCHERS:
+            return [tgt.id]
+        if isinstance(tgt, ast.Name):
+            ds = all_defs(tgt.id)
+            if ds and all(isinstance(d, ast.Name) and d.id in LAUNCHERS for d in ds):
+                return sorted({d.id for d in ds})
+        if isinstance(tgt, ast.IfExp):
+            a, b = launcher_names(tgt.body), launcher_names(tgt.orelse)
+            if a and b:
+                return sorted(set(a) | set(b))
+        return []
+
+    reached = set()
     for c in ast.walk(run.node):
         if not isinstance(c, ast.Call):
             continue
@@ -60,8 +85,9 @@ def share_rule(model, res):
             boundary = "direct call"
         elif fn.split(".")[-1] in ("apply_async", "apply"):
             tgt = c.args[0] if c.args else next((k.value for k in c.keywords if k.arg == "func"), None)
-            if isinstance(tgt, ast.Name) and tgt.id in LAUNCHERS:
-                launcher = tgt.id
+            ln = launcher_names(tgt)
+            if ln:
+                launcher = "|".join(ln)
                 boundary = "pickled task arguments"
                 argt = None
                 for k in c.keywords:
@@ -69,13 +95,17 @@ def share_rule(model, res):
                         argt = k.value
                 if argt is None and len(c.args) > 1:
                     argt = c.args[1]
+                if isinstance(argt, ast.Name):
+                    ds = all_defs(argt.id)
+                    argt = ds[0] if ds and all(isinstance(d, (ast.Tuple, ast.List)) and d.elts for d in ds) else None
                 cfg = argt.elts[0] if isinstance(argt, (ast.Tuple, ast.List)) and argt.elts else None
                 if cfg is None:
                     boundary = None
         elif fn.split(".")[-1] in ("map", "map_async", "starmap", "starmap_async", "imap", "imap_unordered"):
             tgt = c.args[0] if c.args else next((k.value for k in c.keywords if k.arg == "func"), None)
-            if isinstance(tgt, ast.Name) and tgt.id in LAUNCHERS:
-                launcher = tgt.id
+            ln = launcher_names(tgt)
+            if ln:
+                launcher = "|".join(ln)
                 cs = next((k.value for k in c.keywords if k.arg == "chunksize"), None)
                 one = isinstance(cs, ast.Constant) and cs.value == 1
                 boundary = "pickled task arguments" if one else "chunked task arguments"
@@ -83,6 +113,7 @@ def share_rule(model, res):
         if launcher is None:
             continue
         n += 1
+        reached |= set(launcher.split("|"))
         ok = False
         why = ""
         if boundary == "pickled task arguments":
@@ -111,7 +142,7 @@ def share_rule(model, res):
         if not ok:
             res.find("R-SHARE", "BacktestManager.run", f"launch {launcher}({ast.unparse(cfg) if cfg is not None else '?'}, ...) shares market objects",
                      run.loc(c), f"`{ast.unparse(c)[:120]}`: {why}; positions and status left by one strategy are seen by the next")
-    return n
+    return len(reached)
 
 
 def launcher_rule(model, res):
@@ -140,10 +171,23 @@ def launcher_rule(model, res):
     st = mod.funcs.get("_start")
     if st is None:
         raise AnalysisError("C19: _start not found")
-    fresh = any(isinstance(s, ast.Assign) and ast.unparse(s.value) == "Actuator()" for s in ast.walk(st.node))
-    publishes = any(isinstance(s, (ast.Global, ast.Nonlocal)) for s in ast.walk(st.node)) or any(
+    # _start and the module-level helpers it calls (a setup block may live in a private helper)
+    group, todo = [], [st]
+    while todo:
+        g = todo.pop()
+        if g in group:
+            continue
+        group.append(g)
+        for c in ast.walk(g.node):
+            if isinstance(c, ast.Call) and isinstance(c.func, ast.Name) and c.func.id in mod.funcs and c.func.id not in LAUNCHERS[1:]:
+                todo.append(mod.funcs[c.func.id])
+    fresh = any((isinstance(s, ast.Assign) and ast.unparse(s.value) == "Actuator()")
+                or (isinstance(s, ast.Return) and s.value is not None and ast.unparse(s.value) == "Actuator()")
+                for g in group for s in ast.walk(g.node))
+    shared_params = set(st.params) - {"strategy"}
+    publishes = any(isinstance(s, (ast.Global, ast.Nonlocal)) for g in group for s in ast.walk(g.node)) or any(
         isinstance(s, ast.Assign) and any(isinstance(t, ast.Attribute) and ast.unparse(t.value) in ("config", "data", "bk_config")
-                                           for t in s.targets) for s in ast.walk(st.node))
+                                           for t in s.targets) for g in group for s in ast.walk(g.node))
     res.ob("R-SHARE", "_start builds a new Actuator per call and publishes nothing", st.loc(), ok=fresh and not publishes)
     if not (fresh and not publishes):
         res.find("R-SHARE", "core.backtest._start", "actuator not fresh or published", st.loc(),
@@ -254,9 +298,9 @@ def wait_rule(model, res):
 def run(model, tier="quick"):
     res = Result("C19", EXPLANATION)
     res.rules = ["R-SHARE", "R-PAIR"]
-    res.floor("launch_sites", share_rule(model, res), 3)
+    res.floor("launchers_reached_from_run", share_rule(model, res), 2)
     res.floor("launcher_functions", launcher_rule(model, res), 2)
-    res.floor("await_sites", wait_rule(model, res), 2)
+    res.floor("await_sites", wait_rule(model, res), 1)
     effects_check(res, model, "Broker.add_market", REF_ADD_MARKET,
                   "add_market rebinds the market's broker and action callback unconditionally", [], keep_raise_effects=True)
     # the data frames ARE shared between the strategies of one process (by design, read-only): objects inside their cells
@@ -273,11 +317,13 @@ def run(model, tier="quick"):
 
 
 MANIFEST = {
-    "technique": "object-freshness (escape / sharing) analysis of the launch paths plus ledger identity of Broker.add_market",
-    "claim": "On all three launch paths the market objects a strategy runs with are fresh for it (pickled per task or "
-             "deep-copied), launchers use only their own parameters, _start builds and keeps a private Actuator, the module "
-             "has no other mutable globals, add_market rebinds broker and callback unconditionally, and all pool tasks are "
-             "awaited without re-raising. Object identity is invisible to a test that runs one strategy.",
+    "technique": "object-freshness (escape / sharing) analysis of the launch paths, cell-object mutation (alias) analysis of the shared data, ledger identity of Broker.add_market",
+    "claim": "On all launch paths the market objects a strategy runs with are fresh for it: deep-copied, or pickled PER TASK "
+             "(apply_async; the chunked map/starmap family is not a per-task boundary unless chunksize=1); launchers use only "
+             "their own parameters, _start builds and keeps a private Actuator, the module has no other mutable globals, "
+             "add_market rebinds broker and callback unconditionally, all pool tasks are awaited inside the pool block "
+             "without re-raising, and no in-place mutation can reach an object stored in a cell of the shared data frames. "
+             "Object identity is invisible to a test that runs one strategy.",
     "note": "Trusted: pickling semantics of multiprocessing; recognisers of the launch call shapes (a changed shape lowers the "
             "instance count below its floor and is an analysis error).",
 }
